@@ -55,7 +55,8 @@ type normalizer struct {
 	imports map[string]map[string]string // file -> path -> name to add
 	seq     int
 
-	noConcrete bool // do not bind interface parameters with the argument's own type
+	hoistFirst []ast.Expr // effectful operands evaluated before a call that is being hoisted (set by hoistable)
+	noConcrete bool       // do not bind interface parameters with the argument's own type
 	hasDefer   map[*ast.FuncDecl]bool
 	varDef     map[types.Object]ast.Expr        // local variable defined once by this expression
 	varBad     map[types.Object]bool            // reassigned / address taken / unknown definition
@@ -618,6 +619,8 @@ func pureExpr(e ast.Expr, info *types.Info) bool {
 // hoistable: the call is the first effectful thing evaluated by stmt, unconditionally.
 func (n *normalizer) hoistable(stmt ast.Stmt, call *ast.CallExpr) bool {
 	info := n.info
+	n.hoistFirst = nil
+	rvalueCtx := true // false while scanning assignment targets
 	var within func(e ast.Expr) (found, ok bool)
 	contains := func(e ast.Node) bool {
 		if e == nil {
@@ -635,7 +638,19 @@ func (n *normalizer) hoistable(stmt ast.Stmt, call *ast.CallExpr) bool {
 				return within(e)
 			}
 			if !pureExpr(e, info) {
-				return true, false
+				// an effectful operand evaluated before the call: it is hoisted first, in order, if it is a plain
+				// single-valued rvalue
+				tv, known := info.Types[e]
+				if !rvalueCtx || !known || tv.Type == nil || tv.IsType() {
+					return true, false
+				}
+				if _, isTuple := tv.Type.(*types.Tuple); isTuple {
+					return true, false
+				}
+				if b, isB := tv.Type.(*types.Basic); isB && (b.Info()&types.IsUntyped != 0 || b.Kind() == types.Invalid) {
+					return true, false
+				}
+				n.hoistFirst = append(n.hoistFirst, e)
 			}
 		}
 		return false, true
@@ -682,8 +697,12 @@ func (n *normalizer) hoistable(stmt ast.Stmt, call *ast.CallExpr) bool {
 	case *ast.ExprStmt:
 		found, ok = within(s.X)
 	case *ast.AssignStmt:
-		es := append(append([]ast.Expr{}, s.Lhs...), s.Rhs...)
-		found, ok = seq(es...)
+		rvalueCtx = false
+		if f2, ok2 := seq(s.Lhs...); f2 || !ok2 {
+			return false
+		}
+		rvalueCtx = true
+		found, ok = seq(s.Rhs...)
 	case *ast.ReturnStmt:
 		found, ok = seq(s.Results...)
 	case *ast.SendStmt:
@@ -986,7 +1005,7 @@ func (n *normalizer) selectHoist(s *site, cc *ast.CommClause) *ast.SelectStmt {
 		// the clause of the call: everything evaluated before the call must be pure, the call unconditional
 		for _, o := range ops {
 			if o.Pos() <= s.call.Pos() && s.call.End() <= o.End() {
-				if !n.hoistable(&ast.ExprStmt{X: o}, s.call) {
+				if !n.hoistable(&ast.ExprStmt{X: o}, s.call) || len(n.hoistFirst) > 0 {
 					return nil
 				}
 				return sel
@@ -1187,11 +1206,12 @@ func (n *normalizer) resolveLit(id *ast.Ident) (*ast.FuncLit, map[types.Object]b
 	return nil, nil
 }
 
-// sroaRound: a local `v := &T{f: a, g: b}` (T a struct of this package) that is only ever used through field selectors — directly
-// or through the single-assignment pointer copies that inlining introduces for method receivers — is replaced by one local
-// variable per field. go/ssa then lifts the fields to SSA values, so that state moved into a small helper struct by a
-// refactoring (`wait := newReconnectWait(…); wait.reset(); <-wait.after()`) is analysed exactly like the locals it replaced.
-// One candidate per round.
+// sroaRound: a local `v := &T{f: a, g: b}` or `v := T{…}` (T a struct of this package) that is only ever used through field
+// selectors — directly, through the single-assignment copies that inlining introduces (result temporaries, receivers), or
+// through pointers `&v` taken for pointer-receiver methods that were inlined — is replaced by one local variable per
+// field. go/ssa then lifts the fields to SSA values, so that state moved into a small helper struct by a refactoring
+// (`wait := newReconnectWait(…); wait.reset(); <-wait.after()`, a packet writer/reader cursor) is analysed exactly like the
+// locals it replaced. One candidate per round.
 func (n *normalizer) sroaRound() bool {
 	type use struct {
 		id            *ast.Ident
@@ -1201,6 +1221,8 @@ func (n *normalizer) sroaRound() bool {
 	defStmt := map[types.Object]*ast.AssignStmt{}
 	declStmt := map[types.Object]*ast.DeclStmt{}
 	stmtParent := map[ast.Stmt]ast.Node{}
+	reassigned := map[types.Object]bool{} // assigned more than once (address-taking does not count here)
+	nAssign := map[types.Object]int{}
 	for _, f := range n.pp.Syntax {
 		var stack []ast.Node
 		ast.Inspect(f, func(x ast.Node) bool {
@@ -1243,6 +1265,21 @@ func (n *normalizer) sroaRound() bool {
 						}
 					}
 				}
+				if y.Tok != token.DEFINE {
+					for _, l := range y.Lhs {
+						if id, ok := l.(*ast.Ident); ok {
+							if obj := n.info.Uses[id]; obj != nil {
+								nAssign[obj]++
+							}
+						}
+					}
+				}
+			case *ast.IncDecStmt:
+				if id, ok := y.X.(*ast.Ident); ok {
+					if obj := n.info.Uses[id]; obj != nil {
+						nAssign[obj] += 2
+					}
+				}
 			}
 			return true
 		})
@@ -1250,22 +1287,40 @@ func (n *normalizer) sroaRound() bool {
 	for obj, as := range n.varAssign {
 		defStmt[obj] = as
 	}
+	for obj, k := range nAssign {
+		if _, hasDef := n.varDef[obj]; k > 1 || (k == 1 && hasDef && n.varAssign[obj] == nil) {
+			reassigned[obj] = true
+		}
+	}
+	// single definition of a variable, disregarding address-taking: n.varDef minus the reassigned ones
+	defOf := func(obj types.Object) ast.Expr {
+		if reassigned[obj] {
+			return nil
+		}
+		return n.varDef[obj]
+	}
 	var cands []types.Object
 	for obj := range n.varDef {
 		cands = append(cands, obj)
 	}
 	sort.Slice(cands, func(i, j int) bool { return cands[i].Pos() < cands[j].Pos() })
 	for _, obj := range cands {
-		e := n.varDef[obj]
-		if n.varBad[obj] || defStmt[obj] == nil || !isListParent(stmtParent[defStmt[obj]], defStmt[obj]) {
+		e := defOf(obj)
+		if e == nil || defStmt[obj] == nil || !isListParent(stmtParent[defStmt[obj]], defStmt[obj]) {
 			continue
 		}
-		ue, isAddr := ast.Unparen(e).(*ast.UnaryExpr)
-		if !isAddr || ue.Op != token.AND {
+		var lit *ast.CompositeLit
+		ptrMode := false
+		if ue, isAddr := ast.Unparen(e).(*ast.UnaryExpr); isAddr && ue.Op == token.AND {
+			lit, _ = ast.Unparen(ue.X).(*ast.CompositeLit)
+			ptrMode = true
+		} else {
+			lit, _ = ast.Unparen(e).(*ast.CompositeLit)
+		}
+		if lit == nil {
 			continue
 		}
-		lit, ok := ast.Unparen(ue.X).(*ast.CompositeLit)
-		if !ok {
+		if ptrMode && n.varBad[obj] {
 			continue
 		}
 		named, _ := n.info.TypeOf(lit).(*types.Named)
@@ -1296,25 +1351,54 @@ func (n *normalizer) sroaRound() bool {
 		if !keyed {
 			continue
 		}
-		// alias closure
-		alias := map[types.Object]bool{obj: true}
+		// members: variables that denote the struct (value mode: a chain of moves v0 -> v1 -> …, each source dead after the
+		// move) and variables that point to it
+		role := map[types.Object]string{} // "val" (the struct itself / a moved-from holder) or "ptr"
+		if ptrMode {
+			role[obj] = "ptr"
+		} else {
+			role[obj] = "val"
+		}
+		final := obj // value mode: the variable that holds the struct in the end
 		for changed := true; changed; {
 			changed = false
-			for o2, e2 := range n.varDef {
-				if alias[o2] || n.varBad[o2] {
+			for o2 := range n.varDef {
+				if role[o2] != "" {
 					continue
 				}
-				if id2, ok := ast.Unparen(e2).(*ast.Ident); ok && alias[n.info.Uses[id2]] {
-					alias[o2] = true
-					changed = true
+				e2 := defOf(o2)
+				if e2 == nil {
+					continue
+				}
+				switch y := ast.Unparen(e2).(type) {
+				case *ast.Ident:
+					src := n.info.Uses[y]
+					switch role[src] {
+					case "ptr":
+						if !n.varBad[o2] {
+							role[o2] = "ptr"
+							changed = true
+						}
+					case "val":
+						if src == final { // a move: the source must be dead afterwards (checked below)
+							role[o2] = "val"
+							final = o2
+							changed = true
+						}
+					}
+				case *ast.UnaryExpr:
+					if id, ok := ast.Unparen(y.X).(*ast.Ident); ok && y.Op == token.AND && !ptrMode && n.info.Uses[id] == final && role[final] == "val" && !n.varBad[o2] {
+						role[o2] = "ptr"
+						changed = true
+					}
 				}
 			}
 		}
-		// every use is a field selection, an alias definition, or `_ = x`
+		// every use: a field selection (on the final holder or a pointer), a member definition, or `_ = x`
 		okAll := true
 		var sels []*ast.SelectorExpr
-		var dropStmts []*ast.AssignStmt
-		for a := range alias {
+		var dropStmts []ast.Stmt
+		for a, r := range role {
 			if a != obj {
 				ds := defStmt[a]
 				if ds == nil || !isListParent(stmtParent[ds], ds) {
@@ -1327,10 +1411,34 @@ func (n *normalizer) sroaRound() bool {
 				switch p := u.parent.(type) {
 				case *ast.SelectorExpr:
 					sel := n.info.Selections[p]
-					if p.X != ast.Expr(u.id) || sel == nil || sel.Kind() != types.FieldVal || len(sel.Index()) != 1 {
+					if p.X != ast.Expr(u.id) || sel == nil || sel.Kind() != types.FieldVal || len(sel.Index()) != 1 || (r == "val" && a != final) {
 						okAll = false
 					} else {
 						sels = append(sels, p)
+					}
+				case *ast.UnaryExpr:
+					// &final as the definition of a pointer member
+					okDef := false
+					if p.Op == token.AND && a == final && r == "val" {
+						for m, mr := range role {
+							if mr == "ptr" && n.varDef[m] != nil && ast.Unparen(n.varDef[m]) == ast.Expr(p) {
+								okDef = true
+							}
+						}
+					}
+					if !okDef {
+						okAll = false
+					}
+				case *ast.ParenExpr:
+					// (&(x)) / (x): accepted only as part of a member definition
+					okDef := false
+					for m := range role {
+						if d := n.varDef[m]; d != nil && d.Pos() <= p.Pos() && p.End() <= d.End() {
+							okDef = true
+						}
+					}
+					if !okDef {
+						okAll = false
 					}
 				case *ast.AssignStmt:
 					if p == defStmt[a] && len(p.Lhs) == 1 && p.Lhs[0] == ast.Expr(u.id) {
@@ -1344,10 +1452,19 @@ func (n *normalizer) sroaRound() bool {
 					switch {
 					case isId && l.Name == "_" && p.Tok == token.ASSIGN && isListParent(stmtParent[p], p):
 						dropStmts = append(dropStmts, p)
-					case isId && p.Tok == token.DEFINE && alias[n.info.Defs[l]]:
-					case isId && p.Tok == token.ASSIGN && alias[n.info.Uses[l]] && n.varAssign[n.info.Uses[l]] == p:
-						// `var r *T` … `r = x`: the single assignment that makes r a copy of the pointer
+					case isId && p.Tok == token.DEFINE && role[n.info.Defs[l]] != "":
+					case isId && p.Tok == token.ASSIGN && role[n.info.Uses[l]] != "" && n.varAssign[n.info.Uses[l]] == p:
 					default:
+						okAll = false
+					}
+				case *ast.ValueSpec:
+					okDef := false
+					for _, nm := range p.Names {
+						if role[n.info.Defs[nm]] != "" {
+							okDef = true
+						}
+					}
+					if !okDef {
 						okAll = false
 					}
 				default:
@@ -1372,7 +1489,7 @@ func (n *normalizer) sroaRound() bool {
 		okT := true
 		// the member declared outermost: the per-field variables are declared where it is declared
 		outer := obj
-		for a := range alias {
+		for a := range role {
 			if a == outer || a.Parent() == nil || outer.Parent() == nil {
 				continue
 			}
@@ -1445,11 +1562,16 @@ func (n *normalizer) sroaRound() bool {
 			dl := n.fset.Position(d.Pos()).Line
 			n.addEdit(filename, n.off(d.Pos()), n.off(d.End()), "\n"+n.pinLines(decl.String(), filename, dl)+n.lineDirective(filename, n.fset.Position(d.End()).Line))
 		}
+		droppedAt := map[ast.Stmt]bool{ds: true}
 		for _, d := range dropStmts {
+			if droppedAt[d] {
+				continue
+			}
+			droppedAt[d] = true
 			fn2 := n.fset.File(d.Pos()).Name()
 			n.addEdit(fn2, n.off(d.Pos()), n.off(d.End()), "")
 		}
-		for a := range alias {
+		for a := range role {
 			if d := declStmt[a]; d != nil && !(a == outer && split) {
 				fn2 := n.fset.File(d.Pos()).Name()
 				n.addEdit(fn2, n.off(d.Pos()), n.off(d.End()), "")
@@ -1459,7 +1581,7 @@ func (n *normalizer) sroaRound() bool {
 			fn2 := n.fset.File(sel.Pos()).Name()
 			n.addEdit(fn2, n.off(sel.Pos()), n.off(sel.End()), pfx+sel.Sel.Name)
 		}
-		n.notes = append(n.notes, fmt.Sprintf("replaced local *%s %s by one variable per field (%d field accesses)", named.Obj().Name(), obj.Name(), len(sels)))
+		n.notes = append(n.notes, fmt.Sprintf("replaced local %s %s by one variable per field (%d field accesses)", named.Obj().Name(), obj.Name(), len(sels)))
 		return true
 	}
 	return false
@@ -2151,6 +2273,13 @@ func (n *normalizer) inlineSite(filename string, s *site) (done bool) {
 		if nres != 1 || !n.hoistable(st, call) {
 			return n.reject(s, 5)
 		}
+		if len(n.hoistFirst) > 0 && wrapIf != nil {
+			return n.reject(s, 35)
+		}
+	}
+	var earlier []ast.Expr
+	if form == "nested" && selStmt == nil {
+		earlier = append(earlier, n.hoistFirst...)
 	}
 	if _, isLabeled := s.parent.(*ast.LabeledStmt); isLabeled {
 		return n.reject(s, 6)
@@ -2387,6 +2516,9 @@ func (n *normalizer) inlineSite(filename string, s *site) (done bool) {
 			if b, isB := tv.Type.(*types.Basic); isB && b.Info()&types.IsUntyped != 0 {
 				typed = true
 			}
+			if tv.Value != nil {
+				typed = true // a constant expression: `:=` would give it its default type
+			}
 			if _, isLit := ast.Unparen(a).(*ast.FuncLit); isLit {
 				typed = true // so that the literal can be replaced by nil once its calls are inlined
 			}
@@ -2528,7 +2660,18 @@ func (n *normalizer) inlineSite(filename string, s *site) (done bool) {
 		n.addEdit(filename, n.off(call.Pos()), n.off(call.End()), temps[0])
 		n.addEdit(filename, n.off(wrapIf.End()), n.off(wrapIf.End()), "\n}"+resync(n.fset.Position(wrapIf.End()).Line))
 	case form == "nested":
-		n.addEdit(filename, stStart, stStart, "\n"+n.pinLines(pre.String(), filename, line)+n.lineDirective(filename, line))
+		var first strings.Builder
+		for i, e := range earlier {
+			if n.overlaps(filename, n.off(e.Pos()), n.off(e.End())) {
+				return n.reject(s, 36)
+			}
+			t := fmt.Sprintf("%sh%d", pfx, i)
+			fmt.Fprintf(&first, "%s := %s\n_ = %s\n", t, n.src(filename, e.Pos(), e.End()), t)
+		}
+		for i, e := range earlier {
+			n.addEdit(filename, n.off(e.Pos()), n.off(e.End()), fmt.Sprintf("%sh%d", pfx, i))
+		}
+		n.addEdit(filename, stStart, stStart, "\n"+n.pinLines(first.String()+pre.String(), filename, line)+n.lineDirective(filename, line))
 		n.addEdit(filename, n.off(call.Pos()), n.off(call.End()), temps[0])
 		n.addEdit(filename, stEnd, stEnd, resync(endLine))
 	default:
